@@ -7,6 +7,7 @@ CONSTANTS
   MaxReloads = 1
   TailN = 0
   BumpOnTrim = TRUE
+  StalePrevCount = FALSE
   AllowOlder = FALSE
 SPECIFICATION Spec
 INVARIANTS PublishedIsFilter ShownIsFilter MergerCacheSound ChunkCacheSound Convergence
